@@ -93,6 +93,55 @@ fn rand_unit(rng: &mut ChaCha20Rng, key: &Key) -> B {
     }
 }
 
+/// Chains (Props/C08.v `hom_tree`, `add_hom_any_ciphertext`, `mul_hom_any_ciphertext`): a pool of ciphertexts with the
+/// plaintext each carries; every step takes operands from the pool -- results of earlier add / mul calls included --
+/// and puts its result back, so operands become ciphertexts of depth up to `steps`.  Every call is compared with the
+/// closed forms and both decryptions (in-harness oracle); the calls flagged `coq` are evaluated by the model on the
+/// same operands.  Scalars favour N-1, (N+1)/2 and values that make the carried plaintext wrap.
+pub fn chains(imp: &dyn PImpl, key: &Key, rng: &mut ChaCha20Rng, steps: usize, ncoq: usize, out: &mut Out) {
+    let mut pool: Vec<(B, B)> = Vec::new();
+    let seeds = [&key.n - bu(1), (&key.n + bu(1)) / bu(2), rng.gen_biguint_below(&key.n), bu(0), bu(1) % &key.n];
+    for m in seeds.iter() {
+        let r = rand_unit(rng, key);
+        if let Some(c) = enc_of(imp, key, &format!("add {} {} 0 1", hx(m), hx(&r)), m, &r, out) {
+            pool.push((m.clone(), c));
+        }
+    }
+    if pool.is_empty() {
+        return;
+    }
+    for s in 0..steps {
+        let coq = s < ncoq;
+        // prefer the most recent results, so that depth grows
+        let pick = |rng: &mut ChaCha20Rng, len: usize| if rng.gen_range(0..3) > 0 { len - 1 - rng.gen_range(0..len.min(3)) } else { rng.gen_range(0..len) };
+        let i = pick(rng, pool.len());
+        let (m1, c1) = pool[i].clone();
+        if rng.gen_range(0..2) == 0 {
+            let j = pick(rng, pool.len());
+            let (m2, c2) = pool[j].clone();
+            let prop = format!("addc {} {} {} {}", hx(&m1), hx(&c1), hx(&m2), hx(&c2));
+            prop_add_c(imp, key, &prop, &m1, &c1, &m2, &c2, out, coq);
+            if let Some(v) = imp.add(&c1, &c2).val() {
+                pool.push(((&m1 + &m2) % &key.n, v.clone()));
+            }
+        } else {
+            let k = match rng.gen_range(0..5) {
+                0 => &key.n - bu(1),
+                1 => (&key.n + bu(1)) / bu(2),
+                2 => bu(2),
+                _ => rng.gen_biguint_below(&key.n),
+            };
+            let prop = format!("mulc {} {} {}", hx(&m1), hx(&c1), hx(&k));
+            prop_mul_c(imp, key, &prop, &m1, &c1, &k, out, coq);
+            // alternate the two multiplications as the source of the next operand
+            let x = if s % 2 == 0 { imp.mul(&c1, &k) } else { imp.mul_vartime(&c1, &k) };
+            if let Some(v) = x.val() {
+                pool.push(((&k * &m1) % &key.n, v.clone()));
+            }
+        }
+    }
+}
+
 /// boundary (m1, m2) pairs and (m, k) pairs under a key
 fn boundary(rng: &mut ChaCha20Rng, key: &Key) -> (Vec<(B, B)>, Vec<(B, B)>) {
     let n = &key.n;
@@ -258,6 +307,7 @@ pub fn run(kv: &Args) -> i32 {
                         prop_mul_c(imp, key, &prop, m1, c1, &bu(k), &mut out, coq);
                     }
                 }
+                chains(imp, key, &mut rng, 32, 6, &mut out);
             }
             Mode::ToySample(cnt) => {
                 let (adds, muls) = boundary(&mut rng, key);
@@ -279,6 +329,7 @@ pub fn run(kv: &Args) -> i32 {
                     prop_add_c(imp, key, &prop, &adds[0].0, &c, &bu(0), &bu(1), &mut out, false);
                     prop_add_c(imp, key, &prop, &bu(0), &bu(1), &adds[0].0, &c, &mut out, false);
                 }
+                chains(imp, key, &mut rng, (*cnt).clamp(6, 24), 3, &mut out);
                 for _ in 0..cnt.saturating_sub(7) {
                     let (a, b, k) = (rng.gen_biguint_below(&key.n), rng.gen_biguint_below(&key.n), rng.gen_biguint_below(&key.n));
                     let (r1, r2) = (rand_unit(&mut rng, key), rand_unit(&mut rng, key));
@@ -303,6 +354,7 @@ pub fn run(kv: &Args) -> i32 {
                     prop_add(imp, key, m0, &r, &m2, &(&key.n - bu(1)), &mut out, false);
                     prop_mul(imp, key, m0, &r, &bu(3), &mut out, false);
                 }
+                chains(imp, key, &mut rng, if key.wp >= 512 { 4 } else { 8 }, if key.wp >= 1024 { ncoq.saturating_sub(1).min(2) } else { (*ncoq).min(2) }, &mut out);
                 // scalars with limb structure (zero interior limbs, powers of two at the limb boundaries, top bit set)
                 let ks = limb_scalars(&mut rng, key);
                 let m = rng.gen_biguint_below(&key.n);
